@@ -202,4 +202,332 @@ theorem due_enabled {L0 : Nat} {s : State} {t : Nat} (h : Due L0 s t) : ∃ s', 
   | none => rw [hr] at key; cases key
 
 
+theorem wRun_head {L M : Nat} {hot : List Nat} {t : Nat} (ht : t ∈ hot) (hm : 1 ≤ M) : wRun L hot.head? M = 0 := by
+  cases hot with
+  | nil => cases ht
+  | cons a l =>
+    obtain ⟨m, rfl⟩ : ∃ m, M = m + 1 := ⟨M - 1, by omega⟩
+    simp [wRun]
+
+theorem wRun_mono {L L' : Nat} (h : L' ≤ L) (nxt : Option Nat) (k : Nat) : wRun L' nxt k ≤ wRun L nxt k := by
+  unfold wRun; split <;> omega
+
+theorem wPoll_mono {L L' : Nat} (h : L' ≤ L) (b : Back) : wPoll L' b ≤ wPoll L b := by
+  cases b with
+  | main => simp only [wPoll]; omega
+  | task c nxt k => have := wRun_mono h nxt k; simp only [wPoll]; omega
+
+theorem mem_of_head? {l : List Nat} {x : Nat} (h : l.head? = some x) : x ∈ l := by
+  cases l with
+  | nil => simp at h
+  | cons a m => simp at h; subst h; simp
+
+/-- the head x ≠ t of the hot list is taken out: t moves one place forward -/
+theorem posOf_erase_head {s : State} {t x : Nat} {hot' : List Nat} (hh : s.hot.head? = some x) (hx : x ≠ t)
+    (hq : t ∈ s.hot ∨ t ∈ s.sync) (he : hot' = s.hot.erase x) :
+    (t ∈ hot' ∨ t ∈ s.sync) ∧
+    (if t ∈ hot' then hot'.idxOf t else hot'.length + s.sync.idxOf t) < posOf s t := by
+  obtain ⟨h1, h2, h3⟩ := erase_head_facts (t := t) hh hx
+  subst he
+  by_cases hth : t ∈ s.hot
+  · obtain ⟨h4, h5⟩ := h2 hth
+    refine ⟨Or.inl h4, ?_⟩
+    simp only [posOf, h4, hth, if_true]; omega
+  · have h4 := h3 hth
+    have hts : t ∈ s.sync := by rcases hq with h | h; exact absurd h hth; exact h
+    refine ⟨Or.inr hts, ?_⟩
+    simp only [posOf, h4, hth, if_false]; omega
+
+theorem posOf_congr {s s' : State} {t : Nat} (h1 : s'.hot = s.hot) (h2 : s'.sync = s.sync) : posOf s' t = posOf s t := by
+  simp [posOf, h1, h2]
+
+/-- what one step of the runtime thread achieves for a queued task -/
+def Advance (L0 : Nat) (s s' : State) (t : Nat) : Prop :=
+  s'.polls t = s.polls t + 1 ∨
+  (s'.polls t = s.polls t ∧ s'.cfg = s.cfg ∧ s'.wk = s.wk ∧ s'.dropped t = false ∧
+    TaskState.isCancelled (s'.word t) = false ∧ (t ∈ s'.hot ∨ t ∈ s'.sync) ∧ s'.sync.length ≤ L0 ∧
+    ((posOf s' t ≤ posOf s t ∧ wOf s' < wOf s) ∨ (posOf s' t < posOf s t ∧ wOf s' ≤ L0 + 21)))
+
+set_option maxRecDepth 4000 in
+set_option maxHeartbeats 4000000 in
+theorem advance_step {L0 : Nat} {s s' : State} {t : Nat} (h : Due L0 s t) (hs : rtStep s .go = some s') :
+    Advance L0 s s' t := by
+  have hi := h.inv
+  have hal := h.alive
+  have hq := h.queued
+  have hlen := h.len
+  have hm := h.mpos
+  have hnh := hi.nxtHead
+  have hnn := hi.hotNodup
+  have hhl := hi.hotLive
+  have hsync0 : s.pending = 0 → s.sync = [] := by
+    intro h0
+    have := hi.pend
+    have : s.sync.length = 0 := by omega
+    exact List.eq_nil_of_length_eq_zero this
+  have hhot0 : s.sync = [] → t ∈ s.hot := by
+    intro h0
+    rcases hq with h1 | h1
+    · exact h1
+    · rw [h0] at h1; cases h1
+  unfold Advance
+  rt_step hs
+  all_goals (try (right; simp only [posOf, wOf] ; simp_all [wPc, wPoll, wRun]; done))
+  all_goals (try (right; simp only [posOf, wOf] ; simp_all [wPc, wPoll, wRun]; omega))
+  -- drainCheck tick, nothing pending: the tick loop starts at the head of the hot list
+  · rename_i _ _ _ hp _ hrt
+    have ht := hhot0 (hsync0 hp)
+    refine Or.inr ⟨trivial, trivial, trivial, hal.1, hal.2, hq, hlen, Or.inl ⟨Nat.le_of_eq (posOf_congr rfl rfl), ?_⟩⟩
+    simp only [wOf, wPc, hrt, wRun_head ht hm]
+    omega
+  -- drainCheck inside a same-thread wake, nothing pending
+  · rename_i _ _ _ hp _ x b hrt
+    have ht := hhot0 (hsync0 hp)
+    have hp' := idxOf_hotPush_mem (d := s.dropped) (x := x) ht
+    refine Or.inr ⟨trivial, trivial, trivial, hal.1, hal.2, Or.inl hp'.1, hlen, Or.inl ⟨?_, ?_⟩⟩
+    · simp only [posOf, hp'.1, ht, if_true, hp'.2]; exact Nat.le_refl _
+    · simp only [wOf, wPc, hrt]; omega
+  -- drainCheck, something pending: start popping
+  · rename_i _ _ r hrt _ hp
+    refine Or.inr ⟨trivial, trivial, trivial, hal.1, hal.2, hq, hlen, Or.inl ⟨Nat.le_of_eq (posOf_congr rfl rfl), ?_⟩⟩
+    cases r <;> simp only [wOf, wPc, hrt] <;> omega
+  -- end of the drain of the tick (two variants: nothing / something subtracted from `pending`)
+  · rename_i _ _ d _ _ hsy _ hrt hd
+    have ht := hhot0 hsy
+    refine Or.inr ⟨trivial, trivial, trivial, hal.1, hal.2, hq, hlen, Or.inl ⟨Nat.le_of_eq (posOf_congr rfl rfl), ?_⟩⟩
+    simp only [wOf, wPc, hrt, wRun_head ht hm]
+    omega
+  · rename_i _ _ d _ _ hsy _ hrt hd
+    have ht := hhot0 hsy
+    refine Or.inr ⟨trivial, trivial, trivial, hal.1, hal.2, hq, hlen, Or.inl ⟨Nat.le_of_eq (posOf_congr rfl rfl), ?_⟩⟩
+    simp only [wOf, wPc, hrt, wRun_head ht hm]
+    omega
+  -- end of the drain inside a same-thread wake
+  · rename_i _ _ d _ _ hsy _ x b hrt hd
+    have ht := hhot0 hsy
+    have hp' := idxOf_hotPush_mem (d := s.dropped) (x := x) ht
+    refine Or.inr ⟨trivial, trivial, trivial, hal.1, hal.2, Or.inl hp'.1, hlen, Or.inl ⟨?_, ?_⟩⟩
+    · simp only [posOf, hp'.1, ht, if_true, hp'.2]; exact Nat.le_refl _
+    · simp only [wOf, wPc, hrt, hsy, List.length_nil]; omega
+  · rename_i _ _ d _ _ hsy _ x b hrt hd
+    have ht := hhot0 hsy
+    have hp' := idxOf_hotPush_mem (d := s.dropped) (x := x) ht
+    refine Or.inr ⟨trivial, trivial, trivial, hal.1, hal.2, Or.inl hp'.1, hlen, Or.inl ⟨?_, ?_⟩⟩
+    · simp only [posOf, hp'.1, ht, if_true, hp'.2]; exact Nat.le_refl _
+    · simp only [wOf, wPc, hrt, hsy, List.length_nil]; omega
+  -- one pop of the drain loop
+  · rename_i _ _ r d hrt _ _ x rest hsy
+    have hlen' : rest.length ≤ L0 := by rw [hsy] at hlen; simp at hlen; omega
+    have hw : wPc rest.length (RtPc.draining r (d + 1)) < wPc s.sync.length s.rt := by
+      rw [hrt, hsy]
+      cases r with
+      | tick => simp only [wPc, List.length_cons]; omega
+      | loc x b =>
+        have := wPoll_mono (Nat.le_add_right rest.length 1) b
+        simp only [wPc, List.length_cons]; omega
+    by_cases hth : t ∈ s.hot
+    · have hp' := idxOf_hotPush_mem (d := s.dropped) (x := x) hth
+      refine Or.inr ⟨trivial, trivial, trivial, hal.1, hal.2, Or.inl hp'.1, hlen', Or.inl ⟨?_, hw⟩⟩
+      simp only [posOf, hp'.1, hth, if_true, hp'.2]; exact Nat.le_refl _
+    · have hts : t ∈ s.sync := by rcases hq with h1 | h1; exact absurd h1 hth; exact h1
+      by_cases hx : x = t
+      · subst hx
+        have hp' := hotPush_self (d := s.dropped) hth hal.1
+        refine Or.inr ⟨trivial, trivial, trivial, hal.1, hal.2, Or.inl hp'.1, hlen', Or.inl ⟨?_, hw⟩⟩
+        simp only [posOf, hp'.1, hth, if_true, if_false, hp'.2, hsy, List.idxOf_cons_self]; omega
+      · have hp' := hotPush_other (d := s.dropped) hth hx
+        have hts' : t ∈ rest := by
+          rw [hsy] at hts
+          rcases List.mem_cons.1 hts with h1 | h1
+          · exact absurd h1.symm hx
+          · exact h1
+        refine Or.inr ⟨trivial, trivial, trivial, hal.1, hal.2, Or.inr hts', hlen', Or.inl ⟨?_, hw⟩⟩
+        have hxb : (x == t) = false := by simpa using hx
+        simp only [posOf, hp'.1, hth, if_false, hsy, List.idxOf_cons, hxb, cond_false]
+        omega
+  -- the prefetched id is dropped: impossible, it is the head of the hot list
+  · rename_i _ _ _ _ _ _ x hrt hd _ _
+    have hh := hnh x (by simp [hrt, nxtOf])
+    have := hhl x (mem_of_head? hh)
+    rw [this] at hd; cases hd
+  · rename_i _ _ _ _ _ _ x hrt hd _ _
+    have hh := hnh x (by simp [hrt, nxtOf])
+    have := hhl x (mem_of_head? hh)
+    rw [this] at hd; cases hd
+  -- the head of the hot list is a cancelled task: dropped without a poll
+  · rename_i _ _ _ _ _ k x hrt hnd hc
+    have hh := hnh x (by simp [hrt, nxtOf])
+    have hx : x ≠ t := by intro e; subst e; rw [hal.2] at hc; cases hc
+    have hxt : ¬ t = x := fun e => hx e.symm
+    have hE : (s.hot.erase x).erase x = s.hot.erase x :=
+      List.erase_of_not_mem (by intro hm; exact (hnn.mem_erase_iff.1 hm).1 rfl)
+    obtain ⟨h1, h2⟩ := posOf_erase_head hh hx hq rfl
+    have hw := wRun_le s.sync.length (nextHot s.hot x) k
+    refine Or.inr ⟨trivial, trivial, trivial, by simp [upd, hxt, hal.1], by simp [upd, hxt, hal.2], by rw [hE]; exact h1, hlen,
+      Or.inr ⟨?_, ?_⟩⟩
+    · simp only [posOf, hE]; exact h2
+    · simp only [wOf, wPc]; omega
+  -- the head of the hot list is polled
+  · rename_i _ _ _ _ _ k x hrt hnd hc
+    have hh := hnh x (by simp [hrt, nxtOf])
+    by_cases hx : x = t
+    · subst hx; left; simp [upd]
+    · have hxt : ¬ t = x := fun e => hx e.symm
+      obtain ⟨h1, h2⟩ := posOf_erase_head hh hx hq rfl
+      have hw := wRun_le s.sync.length (nextHot s.hot x) k
+      refine Or.inr ⟨by simp [upd, hxt], trivial, trivial, hal.1, by simp [upd, hxt, hal.2], h1, hlen, Or.inr ⟨?_, ?_⟩⟩
+      · simp only [posOf]; exact h2
+      · simp only [wOf, wPc, wPoll]; omega
+
+
+theorem cnt_congr {s s' : State} (p : Wk → Bool) (h1 : s'.cfg = s.cfg) (h2 : s'.wk = s.wk) : cnt s' p = cnt s p := by
+  simp [cnt, h1, h2]
+
+/-- one step of the runtime thread from a `Due` state: t's poll starts, or the state is `Due` again and the
+measure (position, steps to the next poll of a hot task) decreases lexicographically -/
+theorem due_next {L0 : Nat} {s s' : State} {t : Nat} (h : Due L0 s t) (hs : rtStep s .go = some s') :
+    s'.polls t = s.polls t + 1 ∨
+    (Due L0 s' t ∧ s'.polls t = s.polls t ∧
+      ((posOf s' t ≤ posOf s t ∧ wOf s' < wOf s) ∨ (posOf s' t < posOf s t ∧ wOf s' ≤ L0 + 21))) := by
+  rcases advance_step h hs with h1 | ⟨h1, h2, h3, h4, h5, h6, h7, h8⟩
+  · exact Or.inl h1
+  · refine Or.inr ⟨?_, h1, h8⟩
+    exact { inv := inv_rt s s' .go h.fa h.inv hs, fa := by rw [h2]; exact h.fa, mpos := by rw [h2]; exact h.mpos,
+            alive := ⟨h4, h5⟩, queued := h6,
+            noInflight := by rw [cnt_congr _ h2 h3]; exact h.noInflight,
+            noAbout := by rw [cnt_congr _ h2 h3]; exact h.noAbout, len := h7 }
+
+theorem rtRun_succ {s s' : State} (n : Nat) (hs : rtStep s .go = some s') : rtRun (n + 1) s = rtRun n s' := by
+  simp [rtRun, rtNext, hs]
+
+/-- BOUNDED PROGRESS: from a `Due` state the runtime thread alone (every poll returning Pending, no further step
+of any other thread) starts a poll of t within `posOf * (L0 + 22) + wOf + 1` of its own steps -/
+theorem due_progress {L0 : Nat} (t : Nat) :
+    ∀ (r : Nat) (s : State), Due L0 s t → posOf s t * (L0 + 22) + wOf s ≤ r →
+      ∃ n, n ≤ r + 1 ∧ (rtRun n s).polls t = s.polls t + 1 := by
+  intro r
+  induction r using Nat.strongRecOn with
+  | _ r ih =>
+    intro s h hr
+    obtain ⟨s', hs⟩ := due_enabled h
+    rcases due_next h hs with h1 | ⟨h1, h2, h3⟩
+    · exact ⟨1, by omega, by rw [rtRun_succ 0 hs]; exact h1⟩
+    · have hlt : posOf s' t * (L0 + 22) + wOf s' < posOf s t * (L0 + 22) + wOf s := by
+        rcases h3 with ⟨ha, hb⟩ | ⟨ha, hb⟩
+        · have := Nat.mul_le_mul_right (L0 + 22) ha
+          omega
+        · have : (posOf s' t + 1) * (L0 + 22) ≤ posOf s t * (L0 + 22) := Nat.mul_le_mul_right _ ha
+          rw [Nat.add_mul] at this
+          omega
+      obtain ⟨n, hn, hp⟩ := ih (posOf s' t * (L0 + 22) + wOf s') (by omega) s' h1 (Nat.le_refl _)
+      exact ⟨n + 1, by omega, by rw [rtRun_succ n hs, hp, h2]⟩
+
+
+/-! ### the main future -/
+
+def mPoll (L M : Nat) : Back → Nat
+  | .main => L + 2 * M + 19
+  | .task _ _ k => 2 * k + 17
+
+/-- number of steps of the runtime thread (upper bound) before it starts the next poll of the main future -/
+def mPc (L M : Nat) : RtPc → Nat
+  | .mainStart => 0
+  | .setAwake2 => 1
+  | .clear => 2
+  | .consume => 3
+  | .setAwake1 => 4
+  | .pswap => 5
+  | .pclear => 6
+  | .wait => 7
+  | .submit => 8
+  | .arm => 9
+  | .reset => 10
+  | .xclear => 11
+  | .xwait => 12
+  | .xreset => 13
+  | .xsubmit => 14
+  | .xarm => 15
+  | .run _ k => 2 * k + 16
+  | .poll b => mPoll L M b
+  | .lwrite b => 1 + mPoll L M b
+  | .lcas b => 2 + mPoll L M b
+  | .lwake b => 3 + mPoll L M b
+  | .draining (.loc _ b) _ => L + 4 + mPoll L M b
+  | .drainCheck (.loc _ b) => L + 5 + mPoll L M b
+  | .draining .tick _ => L + 2 * M + 17
+  | .drainCheck .tick => L + 2 * M + 18
+
+def mOf (s : State) : Nat := mPc s.sync.length s.cfg.maxInt s.rt
+
+theorem mPoll_mono {L L' : Nat} (h : L' ≤ L) (M : Nat) (b : Back) : mPoll L' M b ≤ mPoll L M b := by
+  cases b <;> simp only [mPoll] <;> omega
+
+/-- "a wake of the main future has returned, and nothing but the runtime thread has to move" -/
+structure DueM (s : State) : Prop where
+  inv : Inv s
+  fa : s.cfg.flushArms = true
+  woken : s.mainWoken = true
+  noInflight : cnt s inflightP = 0
+
+theorem dueM_enabled {s : State} (h : DueM s) : ∃ s', rtStep s .go = some s' := by
+  have hcov : cov s = true ∨ covM s = true ∨ s.hot ≠ [] := Or.inr (Or.inl (h.inv.covMain h.woken))
+  have key : (rtStep s .go).isSome = true := by
+    by_cases hw : s.rt = .wait
+    · by_cases hl : s.cfg.loop = .own
+      · rcases wait_returns h.inv hw hl hcov with h1 | h1
+        · exact h1
+        · have := h.noInflight; omega
+      · have hl' : s.cfg.loop = .ext := by cases hx : s.cfg.loop <;> simp_all
+        unfold rtStep
+        simp only [hw]
+        cases hd : s.cfg.drv <;> simp only [hl'] <;> (repeat' split) <;> simp_all
+    · by_cases hx : s.rt = .xwait
+      · rcases xwait_returns h.inv hx hcov with h1 | h1
+        · exact h1
+        · have := h.noInflight; omega
+      · cases hr : rtStep s .go with
+        | some s' => rfl
+        | none => rcases blocked_only_in_wait s hr with h1 | h1 <;> contradiction
+  cases hr : rtStep s .go with
+  | some s' => exact ⟨s', rfl⟩
+  | none => rw [hr] at key; cases key
+
+set_option maxRecDepth 4000 in
+set_option maxHeartbeats 4000000 in
+theorem advanceM_step {s s' : State} (hs : rtStep s .go = some s') :
+    s'.mainPolls = s.mainPolls + 1 ∨
+    (s'.mainPolls = s.mainPolls ∧ s'.cfg = s.cfg ∧ s'.wk = s.wk ∧ s'.mainWoken = s.mainWoken ∧ mOf s' < mOf s) := by
+  rt_step hs
+  all_goals (try (left; simp; done))
+  all_goals (try (right; simp only [mOf] ; simp_all [mPc, mPoll]; done))
+  all_goals (try (right; simp only [mOf] ; simp_all [mPc, mPoll]; omega))
+  · rename_i _ _ r hrt _ hp
+    refine Or.inr ⟨trivial, trivial, trivial, trivial, ?_⟩
+    cases r <;> simp only [mOf, mPc, hrt] <;> omega
+  · rename_i _ _ r d hrt _ _ x rest hsy
+    refine Or.inr ⟨trivial, trivial, trivial, trivial, ?_⟩
+    cases r with
+    | tick => simp only [mOf, mPc, hrt, hsy, List.length_cons]; omega
+    | loc y b =>
+      have := mPoll_mono (Nat.le_add_right rest.length 1) s.cfg.maxInt b
+      simp only [mOf, mPc, hrt, hsy, List.length_cons]; omega
+
+/-- BOUNDED PROGRESS (main future): from a `DueM` state the runtime thread alone starts the next poll of the main
+future within `mOf s + 1` of its own steps -/
+theorem dueM_progress :
+    ∀ (r : Nat) (s : State), DueM s → mOf s ≤ r → ∃ n, n ≤ r + 1 ∧ (rtRun n s).mainPolls = s.mainPolls + 1 := by
+  intro r
+  induction r using Nat.strongRecOn with
+  | _ r ih =>
+    intro s h hr
+    obtain ⟨s', hs⟩ := dueM_enabled h
+    rcases advanceM_step hs with h1 | ⟨h1, h2, h3, h4, h5⟩
+    · exact ⟨1, by omega, by rw [rtRun_succ 0 hs]; exact h1⟩
+    · have hd : DueM s' :=
+        { inv := inv_rt s s' .go h.fa h.inv hs, fa := by rw [h2]; exact h.fa, woken := by rw [h4]; exact h.woken,
+          noInflight := by rw [cnt_congr _ h2 h3]; exact h.noInflight }
+      obtain ⟨n, hn, hp⟩ := ih (mOf s') (by omega) s' hd (Nat.le_refl _)
+      exact ⟨n + 1, by omega, by rw [rtRun_succ n hs, hp, h1]⟩
+
+
 end Compio.Wake
